@@ -2,6 +2,7 @@ package vkit
 
 import (
 	"hash/fnv"
+	"os"
 	"regexp"
 	"runtime"
 	"sort"
@@ -170,4 +171,59 @@ func RepoFrames(dump string) []string {
 	}
 	sort.Strings(out)
 	return out
+}
+
+// WatchDeadlock starts a process-wide progress monitor for a workload that may block inside the code
+// under test without a watchdog of its own. Nothing is decided by the clock: when no evaluation was
+// recorded for three ticks, the stable-state oracle is consulted; only a state that cannot change by
+// itself (identical goroutine dumps, nothing runnable) in which goroutines are blocked on a lock in a
+// frame accepted by match is a violation (sig = sigPrefix + the blocked frames). The run is then
+// finished and the process exits, because the blocked workload cannot end. stop ends the monitor.
+func (r *Run) WatchDeadlock(sigPrefix string, match func(frame string) bool) (stop func()) {
+	finished := make(chan struct{})
+	go func() {
+		tick := time.NewTicker(15 * time.Second)
+		defer tick.Stop()
+		lastEvals, quiet := int64(-1), 0
+		for {
+			select {
+			case <-finished:
+				return
+			case <-tick.C:
+			}
+			if e := r.Evals(); e != lastEvals {
+				lastEvals, quiet = e, 0
+				continue
+			}
+			if quiet++; quiet < 3 {
+				continue
+			}
+			never := make(chan struct{})
+			v, dump := WaitStable(never, StableOpts{Polls: 40, Every: 50 * time.Millisecond, MaxWait: 20 * time.Second})
+			if v != "hang" {
+				continue
+			}
+			var locked []string
+			for _, f := range RepoFrames(dump) {
+				if (strings.Contains(f, "Mutex") || strings.Contains(f, "semacquire")) && match(f) {
+					locked = append(locked, f)
+				}
+			}
+			if len(locked) == 0 {
+				continue
+			}
+			select {
+			case <-finished:
+				return
+			default:
+			}
+			if len(dump) > 8000 {
+				dump = dump[len(dump)-8000:]
+			}
+			r.Violation(sigPrefix+strings.Join(locked, " | "), map[string]any{"dump": dump})
+			r.Finish()
+			os.Exit(1)
+		}
+	}()
+	return func() { close(finished) }
 }
